@@ -12,7 +12,7 @@ use acpi_tables::aml::*;
 use acpi_tables::{Aml, AmlSink};
 use zerocopy::IntoBytes;
 
-pub const N_SELECTORS: u64 = 57;
+pub const N_SELECTORS: u64 = 58;
 
 fn seg(b: &[u8], i: usize) -> String {
     // a legal 4-character name segment [A-Z_][A-Z0-9_]{3}
@@ -256,6 +256,16 @@ pub fn produce(op: &Op, depth: usize, cx: &mut Cx) -> Result<Vec<u8>, Caught> {
             55 => {
                 let r = acpi_tables::rqsc::PCIDeviceResource::new(a3 as u32);
                 run_raw(&r, Some(r.as_bytes()), cx)
+            }
+            57 => {
+                use acpi_tables::hest::*;
+                let sev = match a4 % 4 {
+                    0 => ErrorSeverity::Recoverable,
+                    1 => ErrorSeverity::Fatal,
+                    2 => ErrorSeverity::Correctable,
+                    _ => ErrorSeverity::None,
+                };
+                run(&GenericErrorStatus::new((a3 % 4) as u32, ((a3 >> 8) % 4) as u32, sev), cx)
             }
             _ => {
                 // a generic-error status block with data entries (HEST error records)
